@@ -15,8 +15,8 @@ Record tables := mkTables {
   t_loc : list (nat * loc * bool * dna * lres nat);
   t_reinit : list (bool * nat * dna * nat);
   t_attr : list (nat * attrs);
-  (* results of resolution heuristics, keyed by (constraint, local sequence): (solved?, sequence) *)
-  t_heur : list (nat * dna * (bool * dna)) }.
+  (* results of resolution heuristics, keyed by (constraint, local sequence, index of the heuristic call): (solved?, sequence) *)
+  t_heur : list (nat * dna * Z * (bool * dna)) }.
 
 Section Inst.
   Variable tb : tables.
@@ -62,19 +62,29 @@ Section Inst.
     match t with [] => default_attrs | (c', a) :: t' => if Nat.eqb c c' then a else lookup_attr c t' end.
   Definition attr (c : nat) := lookup_attr c (t_attr tb).
 
-  Fixpoint lookup_heur (c : nat) (s : dna) (t : list (nat * dna * (bool * dna))) : option (bool * dna) :=
+  (* heuristics may draw random numbers of their own (not part of the modelled stream), so the same
+     (constraint, sequence) can give different results on different calls.  The recorder puts a
+     marker (request RInt (-2), answer = index of the heuristic call) into the oracle stream at
+     each heuristic call; the model's heuristic consumes it and looks the result up by that index. *)
+  Fixpoint lookup_heur (c : nat) (s : dna) (k : Z) (t : list (nat * dna * Z * (bool * dna)))
+    : option (bool * dna) :=
     match t with
     | [] => None
-    | (c', s', v) :: t' => if Nat.eqb c c' && seq_eqb s s' then Some v else lookup_heur c s t'
+    | (c', s', k', v) :: t' =>
+        if Nat.eqb c c' && seq_eqb s s' && (k =? k') then Some v else lookup_heur c s k t'
     end.
   Definition heuristic (c : nat)
     : option (settings -> lproblem nat -> state nat -> outcome * state nat) :=
     if a_has_heuristic (attr c) then
-      Some (fun _ _ st =>
-              match lookup_heur c (cur _ st) (t_heur tb) with
-              | Some (true, s') => (ODone, mkState _ s' (rng _ st) (trace _ st))
-              | Some (false, _) => (ONoSolution, st)
-              | None => (OPyError 99, st)
+      Some (fun _ lp st =>
+              match draw_int (-2) (rng _ st) with
+              | None => (OOutOfStream, st)
+              | Some (k, r') =>
+                  match lookup_heur c (cur _ st) k (t_heur tb) with
+                  | Some (true, s') => (ODone, mkState _ s' r' (trace _ st))
+                  | Some (false, _) => (ONoSolution, mkState _ (cur _ st) r' (trace _ st))
+                  | None => (OPyError 99, st)
+                  end
               end)
     else None.
 
